@@ -241,3 +241,95 @@ func runHostCase(hc hostCase) (fails []fail, obs string) {
 	}
 	return fails, "host-checked"
 }
+
+// Allocation-limit positions: the statement whose allocation exhausts the budget is the one reported. Programs are
+// lines of single-allocation statements; with budget N the (N+1)th allocating line must be named.
+var allocKinds = []struct{ name, expr string }{
+	{"empty-array", "[]"}, {"array", "[1, 2]"}, {"empty-map", "{}"}, {"map", "{a: 1}"}, {"error", "error(1)"},
+	{"int-sum", "big + 1"}, {"string-concat", "str + \"x\""}, {"builtin-call", "len(str)"},
+}
+
+type allocCase struct {
+	Kind   string `json:"alloc_kind"`
+	Site   string `json:"site"` // main | func | loop
+	Budget int    `json:"budget"`
+}
+
+func allocCases() []allocCase {
+	var out []allocCase
+	for _, k := range allocKinds {
+		for _, s := range []string{"main", "func", "loop"} {
+			for n := 0; n <= 2; n++ {
+				out = append(out, allocCase{k.name, s, n})
+			}
+		}
+	}
+	return out
+}
+
+// allocProgram returns the source and the 1-based lines of the allocating statements in execution order.
+func allocProgram(c allocCase) (string, []int) {
+	expr := ""
+	for _, k := range allocKinds {
+		if k.name == c.Kind {
+			expr = k.expr
+		}
+	}
+	pre := "big := 1000000\nstr := \"s\"\n"
+	switch c.Site {
+	case "main":
+		return pre + "a := 1\nb := " + expr + "\nc := " + expr + "\nd := " + expr + "\n", []int{4, 5, 6}
+	case "func":
+		return pre + "f := func() {\n\ta := 1\n\tb := " + expr + "\n\tc := " + expr + "\n\td := " + expr + "\n\treturn a\n}\nout := f()\n", []int{5, 6, 7}
+	default:
+		return pre + "for i := 0; i < 1; i++ {\n\tb := " + expr + "\n\tc := " + expr + "\n\td := " + expr + "\n}\n", []int{4, 5, 6}
+	}
+}
+
+func runAllocCase(c allocCase) (fails []fail, obs string) {
+	add := func(what string) {
+		fails = append(fails, fail{"alloc-limit-position/kind=" + c.Kind + "/site=" + c.Site, what})
+	}
+	src, lines := allocProgram(c)
+	run := func(n int64) (error, string) {
+		s := tengo.NewScript([]byte(src))
+		s.SetMaxAllocs(n)
+		comp, err := s.Compile()
+		if err != nil {
+			return err, "compile-error"
+		}
+		var rerr error
+		func() {
+			defer func() {
+				if r := recover(); r != nil {
+					rerr = fmt.Errorf("PANIC: %v", r)
+				}
+			}()
+			rerr = comp.RunContext(context.Background())
+		}()
+		return rerr, ""
+	}
+	// calibration on this very tree: the kind must perform exactly one tracked allocation per line
+	// (budget 3 succeeds, budget 2 fails), otherwise nothing is claimed for it
+	if e3, _ := run(3); e3 != nil {
+		return nil, "n/a:more-than-one-allocation-per-line"
+	}
+	if e2, _ := run(2); e2 == nil || !errors.Is(e2, tengo.ErrObjectAllocLimit) {
+		return nil, "n/a:fewer-allocations"
+	}
+	rerr, _ := run(int64(c.Budget))
+	if rerr == nil || !errors.Is(rerr, tengo.ErrObjectAllocLimit) {
+		add(fmt.Sprintf("budget %d: expected the allocation-limit error, got %v", c.Budget, rerr))
+		return fails, "no-alloc-error"
+	}
+	_, locs := parseTrace(rerr.Error())
+	want := lines[c.Budget]
+	if len(locs) == 0 || !locs[0].valid {
+		add(fmt.Sprintf("budget %d: no position in %q", c.Budget, tg.FirstLine(rerr.Error())))
+		return fails, "no-position"
+	}
+	if locs[0].line != want {
+		add(fmt.Sprintf("budget %d: allocation #%d happens on line %d, the error names line %d (%q)", c.Budget, c.Budget+1, want, locs[0].line, src))
+	}
+	return fails, "alloc-position-checked"
+}
